@@ -225,6 +225,47 @@ def ctx_mid_decls(k0):
     return out
 
 
+def decl_from_spec(k, n, deps, args=None, asyncs=(), fall=(), prefix="S"):
+    """A plain declaration from an explicit DAG: node i requires the first result of each node in deps[i] (in that order)
+    and the injector arguments args[i]; node 0 provides the requested type."""
+    P = "%s%d" % (prefix, k)
+    args = args or {}
+    provs = []
+    for i in range(n):
+        req = ["*%sT%d" % (P, j) for j in deps.get(i, [])] + ["%sA%d" % (P, a) for a in args.get(i, [])]
+        provs.append(dict(kind="fn", fn="New%sT%d" % (P, i), requires=req, provides=[["*%sT%d" % (P, i)]], fallible=(i in fall), node=i, bind=[],
+                          **{"async": (i in asyncs)}))
+    return dict(name="Init" + P, prefix=P, ret="*%sT0" % P, provs=provs, layout=list(range(n)), kind="valid",
+                meta=dict(n=n, nargs=len({a for v in args.values() for a in v}), nf=0, structnode=None, second=[], binds=[], values=[]))
+
+
+def shape_decls(k0):
+    """A small library of canonical graph shapes, each under several Async masks: independent fan-outs (one fed by an
+    injector argument), chains, diamonds, a W, a wide join - shapes that random DAGs of the quick tier hit only by luck."""
+    shapes = [
+        # two fan-outs joined by the root; the second one hangs on an injector argument
+        (7, {0: [1, 2, 4, 5], 1: [3], 2: [3], 4: [6], 5: [6]}, {6: [0]}),
+        (7, {0: [4, 5, 1, 2], 1: [3], 2: [3], 4: [6], 5: [6]}, {6: [0]}),
+        (7, {0: [1, 2, 4, 5], 1: [3], 2: [3], 4: [6], 5: [6]}, {3: [0], 6: [1]}),
+        # diamond over a chain
+        (6, {0: [1, 2], 1: [3], 2: [3], 3: [4], 4: [5]}, {5: [0]}),
+        # W: two consumers sharing the middle producer
+        (6, {0: [1, 2], 1: [3, 4], 2: [4, 5]}, {}),
+        # wide join of independent chains
+        (7, {0: [1, 3, 5], 1: [2], 3: [4], 5: [6]}, {2: [0], 6: [0]}),
+        # a producer consumed at three depths
+        (5, {0: [1, 4], 1: [2, 4], 2: [3, 4]}, {}),
+    ]
+    out = []
+    k = k0
+    for n, deps, args in shapes:
+        masks = [set(range(1, n)), set(range(0, n)), {i for i in range(1, n) if i % 2 == 1}, {i for i in range(1, n) if not deps.get(i)}]
+        for m in masks:
+            out.append(decl_from_spec(k, n, deps, args, asyncs=m, fall={0}))
+            k += 1
+    return out
+
+
 def known_finding_decls():
     """Directed reproducers of the four open concurrency findings (one declaration each, package `kf`)."""
     def fn(P, i, req, fall, asy):
